@@ -11,7 +11,7 @@ import traceback
 from . import tlc
 
 VERIF = tlc.VERIF
-EVID = os.path.join(VERIF, "evidence")
+EVID = os.environ.get("VERIF_EVIDENCE_DIR") or os.path.join(VERIF, "evidence")  # (seed runs write their evidence elsewhere)
 REPLAYS = os.path.join(VERIF, "out", "replays")
 FINDINGS = os.path.join(VERIF, "known_findings.json")
 
